@@ -76,16 +76,21 @@ func (p *diffProp) Gen(seed uint64, tier string, i int) Case {
 		// series that differ in the metric name only and take turns (A, B, or A, B, A again) under an
 		// operator that drops the name: one output series assembled from several inputs
 		for k := 0; k < 1+r.Intn(2); k++ {
-			AddTwin(r, &c.Dataset, c.Window, genLookback, false, true)
+			AddTwin(r, &c.Dataset, c.Window, genLookback, false, r.P(0.7))
 		}
 		c.Dataset.Normalize()
 		c.Query = Pick(r, c07Twins)
+		if (p.id == "C06" || p.extreme) && r.P(0.3) {
+			c.NParts = 2
+			c.Engine.Opt = "none"
+		}
 	}
 	for range c.Dataset.Series {
 		if c.NParts > 0 {
 			c.Parts = append(c.Parts, r.Intn(c.NParts))
 		}
 	}
+	separateTwins(&c)
 	return c
 }
 
